@@ -1,5 +1,5 @@
 (* Properties_C20.v — property C20 (API-specific diagnostics are about the real API) for modelled checkers. *)
-From GC Require Import Base GoAst Model_Checkers Model_Checkers_Prefix Proofs_Checkers Proofs_Witnesses.
+From GC Require Import Base GoAst Model_Checkers Model_Checkers_Prefix Model_Checkers2 Proofs_Checkers Proofs_Checkers2 Proofs_Witnesses.
 
 Theorem C20_flagName_real : forall f w, In w (warnings (run_flagName f)) -> w_callee w = OPkgName "flag" /\ is_real w = true.
 Proof. exact flagName_real. Qed.
@@ -48,3 +48,17 @@ Print Assumptions C20_flagName_silent_on_namesakes.
 Example C20_no_namesake_satisfiable :
   wf Witnesses.ns_filepath_alias = true /\ forallb (g_no_namesake_bare "new") (all_nodes Witnesses.ns_filepath_alias) = true.
 Proof. exact no_namesake_satisfiable. Qed.
+
+(* ---------- exitAfterDefer (Model_Checkers2.v): log.Fatal* / os.Exit are recognised by spelling ---------- *)
+
+Theorem C20_exitAfterDefer_real_refuted : exists f, wf f = true /\ exists w, In w (warnings (run_exitAfterDefer f)) /\ is_real w = false.
+Proof. exact (exitAfterDefer_real_refuted). Qed.
+Print Assumptions C20_exitAfterDefer_real_refuted.
+
+Theorem C20_exitAfterDefer_real_partial : forall f, all_nodes_sat g_no_namesake_exit f -> forall w, In w (warnings (run_exitAfterDefer f)) -> is_real w = true.
+Proof. exact (fun f G w H => exitAfterDefer_real_partial f w G H). Qed.
+Print Assumptions C20_exitAfterDefer_real_partial.
+
+Example C20_no_exit_namesake_satisfiable :
+  wf Witnesses.ns_filepath_alias = true /\ forallb g_no_namesake_exit (all_nodes Witnesses.ns_filepath_alias) = true.
+Proof. exact no_exit_namesake_satisfiable. Qed.
